@@ -45,6 +45,18 @@ Lemma set_linkname_nil_fields : forall a b, set_linkname a [] = set_linkname b [
   st_devminor a = st_devminor b /\ st_xattrs a = st_xattrs b.
 Proof. intros a b H. unfold set_linkname in H. inversion H. repeat split; assumption. Qed.
 
+Lemma sender_entries_same : forall view served,
+  Forall2 (fun e e' => set_linkname (fst e') [] = set_linkname (fst e) [] /\ snd e' = served (fst e', snd e))
+          (walk_root view) (sender_entries view served).
+Proof.
+  intros view served. unfold sender_entries, hl_reset.
+  generalize (hl_reset_from_same (walk_root view) []).
+  generalize (hl_reset_from [] (walk_root view)). generalize (walk_root view).
+  induction l as [|e l IH]; intros l' H; inversion H; subst; simpl; constructor.
+  - destruct H2 as [H2 H2']. simpl. split; [assumption|]. rewrite <- H2'. destruct y; reflexivity.
+  - apply IH. assumption.
+Qed.
+
 Section SenderP.
   Variable exp : list entry.
   Notation step := (sender_acc exp).
